@@ -164,7 +164,23 @@ class Out:
             self.line(depth, ")")
 
 
+# an annotation text with blanks that are not ASCII blanks (no-break space, ideographic space, em space, vertical tab):
+# they are characters of the text, not whitespace to collapse
+WIDE_TEXT = "Prix\u00a0: 10\u00a0\u20ac \u3000x\u2003y\x0bz"
+
+
+def unwide(x):
+    """projected catalog with the rendering of the abstract annotation "wide spaces" mapped back to it"""
+    if isinstance(x, dict):
+        return {k: unwide(v) for k, v in x.items()}
+    if isinstance(x, list):
+        return [unwide(v) for v in x]
+    return "wide spaces" if x == WIDE_TEXT else x
+
+
 def annot(a):
+    if a == "wide spaces":
+        return " // " + WIDE_TEXT
     if a == "collapsed text":          # written with runs of blanks and a tab: the catalog must hold the collapsed form
         return " //  collapsed  \t text  "
     return (" // " + a) if a else ""
@@ -581,7 +597,7 @@ def project(text):
             if it.get("result") is not None:
                 e["result"].append(sv(it.get("result").get("schema")))
         cat["interactions"].append(e)
-    return cat, dups, val
+    return unwide(cat), dups, val
 
 
 def strip_private(x):
